@@ -22,10 +22,32 @@ D = 'python/experiment/model/data.py'
 ST = 'python/experiment/model/storage.py'
 F = 'python/experiment/model/frontends/flowir.py'
 DEST = '/work/inst/stages/stage0/comp'
-NAMES = ['f.txt', 'sub/f.txt', './f.txt', '../x', 'sub/../../x', '/etc/passwd', 'a/../b', '..', 'sub/../f', '../comp2/f',
-         '../comp/f.txt']
-LINKS = [None, ('sym', 'f.txt'), ('sym', '../../secret'), ('sym', '/etc/passwd'), ('hard', '../outside'), ('hard', 'sub/f.txt'),
-         ('sym', 'sub/../../../x')]
+QUICK = os.environ.get('VERIF_TIER') != 'thorough'
+
+# ---- hostile vocabulary: member specifications (name, kind, link target) --------------------------------------------------
+SPECS = [
+    ('f.txt', 'file', ''), ('sub/f.txt', 'file', ''), ('./f.txt', 'file', ''), ('a/../b', 'file', ''), ('d', 'dir', ''),
+    ('../x', 'file', ''), ('sub/../../x', 'file', ''), ('/etc/passwd', 'file', ''), ('../comp2/f', 'file', ''),
+    ('l', 'sym', 'f.txt'), ('sub/l', 'sym', '../f.txt'), ('l3', 'sym', 'l'),
+    ('l', 'sym', '../../secret'), ('l', 'sym', '/etc/passwd'), ('sub/l', 'sym', 'sub/../../../x'),
+    ('h', 'hard', 'sub/f.txt'), ('h', 'hard', '../outside'),
+    # chains through links that the archive itself creates / that already exist in the working directory
+    ('d/l', 'sym', '..'), ('l2', 'sym', 'd/l/..'), ('l2/evil', 'file', ''), ('l/evil', 'file', ''),
+    ('shared/params.txt', 'file', ''), ('alias/l2/evil', 'file', ''), ('l4', 'sym', 'shared/../x'),
+]
+# what the working directory holds before the archive is extracted (left there by earlier :link / :copy references)
+PRESTATES = {
+    'empty': {},
+    'link-out': {DEST + '/shared': ('sym', '/work/inst/data/shared')},        # a staged :link reference
+    'alias': {DEST + '/alias': ('sym', '.')},                                  # a link to the working directory itself
+}
+MAXLEN = 2 if QUICK else 3
+# three-member archives that matter for link chains are part of the quick tier too
+CHAINS = [[('d/l', 'sym', '..'), ('l2', 'sym', 'd/l/..'), ('l2/evil', 'file', '')],
+          [('d', 'dir', ''), ('d/l', 'sym', '..'), ('d/l/../../x', 'file', '')],
+          [('l', 'sym', 'f.txt'), ('l3', 'sym', 'l'), ('l3/x', 'file', '')],
+          [('sub/l', 'sym', '../f.txt'), ('f.txt', 'file', ''), ('sub/f.txt', 'file', '')],
+          [('d/l', 'sym', '..'), ('l2', 'sym', 'd/l'), ('alias/l2/../evil', 'file', '')]]
 
 
 def inside(root, path):
@@ -35,10 +57,10 @@ def inside(root, path):
 
 
 class Member(Native):
-    def __init__(self, name, link):
+    def __init__(self, name, kind, linkname):
         self.name = name
-        self.linkname = link[1] if link else ''
-        self._kind = link[0] if link else None
+        self.linkname = linkname
+        self._kind = kind
 
     def issym(self):
         return self._kind == 'sym'
@@ -47,10 +69,120 @@ class Member(Native):
         return self._kind == 'hard'
 
     def isfile(self):
-        return self._kind is None
+        return self._kind == 'file'
 
     def isdir(self):
-        return False
+        return self._kind == 'dir'
+
+
+class VFS:
+    """The ASSUMED contract of the file system, os.path.realpath and tarfile.extractall (trusted; compared with the real
+    tarfile on a scratch directory by the bounded native check below): a map from absolute paths to 'dir' / 'file' /
+    ('sym', target); symbolic links are followed POSIX-style; extraction creates the members in order, THROUGH whatever
+    links exist at that moment."""
+
+    def __init__(self, entries):
+        self.e = dict(entries)
+        self.created = []          # real locations created/overwritten by the extraction
+        self.linked = []           # (location of a created link, kind, where it really points once the extraction is done)
+
+    def realpath(self, path, depth=0):
+        if depth > 40:
+            raise OSError(40, 'Too many levels of symbolic links')
+        walked = '/'
+        for part in [p for p in path.split('/') if p not in ('', '.')]:
+            if part == '..':
+                walked = os.path.dirname(walked)
+                continue
+            cand = os.path.join(walked, part)
+            ent = self.e.get(cand)
+            if isinstance(ent, tuple):
+                walked = self.realpath(os.path.join(walked, ent[1]), depth + 1)
+            else:
+                walked = cand
+        return walked
+
+    def location(self, path):
+        """real directory of @path + its last segment (the last segment itself is not followed)"""
+        path = path.rstrip('/')
+        return os.path.join(self.realpath(os.path.dirname(path)), os.path.basename(path)) if os.path.basename(path) not in ('', '.', '..') \
+            else self.realpath(path)
+
+    def extractall(self, dest, members):
+        made = []
+        for m in members:
+            loc = self.location(os.path.join(dest, m.name))
+            parent = os.path.dirname(loc)
+            walk = '/'
+            for part in [p for p in parent.split('/') if p]:
+                walk = os.path.join(walk, part)
+                if self.e.get(walk) == 'file':
+                    raise OSError(20, 'Not a directory: %s' % walk)
+            if m.issym():
+                self.e[loc] = ('sym', m.linkname)
+                made.append((loc, 'sym', os.path.join(parent, m.linkname)))
+                self.created.append(loc)
+            elif m.islnk():
+                made.append((loc, 'hard', os.path.join(dest, m.linkname)))
+                self.e[loc] = 'file'
+                self.created.append(loc)
+            elif m.isdir():
+                loc = self.realpath(loc)
+                if self.e.get(loc) != 'dir':
+                    self.e[loc] = 'dir'
+                self.created.append(loc)
+            else:
+                loc = self.realpath(loc)            # open(path, 'wb') follows a link that is already there
+                self.e[loc] = 'file'
+                self.created.append(loc)
+        for loc, kind, tgt in made:
+            try:
+                self.linked.append((loc, kind, self.realpath(tgt)))
+            except OSError:
+                self.linked.append((loc, kind, loc))          # a loop: points nowhere
+
+
+def plainly_benign(pre, members):
+    """no member path or link target leaves the destination lexically, is absolute, or goes through ANY link (its own or
+    one that is already there): such an archive must be accepted"""
+    links = {os.path.normpath(os.path.join(DEST, m.name)) for m in members if m.issym()} | set(pre)
+    def clean(p):
+        if not inside(DEST, p):
+            return False
+        q = os.path.normpath(p)
+        parts = os.path.relpath(q, DEST).split('/')
+        pref = DEST
+        for part in parts[:-1]:
+            pref = os.path.join(pref, part)
+            if pref in links:
+                return False
+        return True
+    for m in members:
+        if os.path.isabs(m.name) or '..' in m.name.split('/') or not clean(os.path.join(DEST, m.name)):
+            return False
+        if m.issym():
+            if os.path.isabs(m.linkname) or not clean(os.path.join(os.path.dirname(os.path.join(DEST, m.name)), m.linkname)):
+                return False
+            # '..' inside a link target is fine as long as the lexical walk never passes a link (checked by clean on the
+            # normalised path) -- but a target that names a link as an INTERMEDIATE segment before normalisation is not plain
+            raw = os.path.join(os.path.dirname(os.path.join(DEST, m.name)), m.linkname).split('/')
+            pref = ''
+            for part in raw[1:-1]:
+                pref = os.path.normpath(pref + '/' + part)
+                if pref in links:
+                    return False
+        if m.islnk() and (os.path.isabs(m.linkname) or not clean(os.path.join(DEST, m.linkname))):
+            return False
+    return True
+
+
+def archives(c):
+    """one archive per path: every sequence of <= MAXLEN member specifications, plus the chain archives"""
+    kind = c.choice('archive', 2)
+    if kind == 1:
+        return [Member(*spec) for spec in CHAINS[c.choice('chain', len(CHAINS))]]
+    n = 1 + c.choice('members', MAXLEN)
+    return [Member(*SPECS[c.choice('member%d' % i, len(SPECS))]) for i in range(n)]
 
 
 class ExtractArchive(Target):
@@ -58,36 +190,38 @@ class ExtractArchive(Target):
     name = 'StageReference[extract]'
     file = D
     qualname = 'StageReference'
-    max_paths = 100000
-    trusted = ["tarfile.extractall(dest) creates join(dest, m.name) for every member; a symlink member points to "
-               "join(dirname(member path), linkname), a hardlink member to join(dest, linkname)",
-               "os.path.* (stdlib, executed natively on concrete paths); os.path.realpath on paths without existing symlinks"]
-    assumptions = ["archives of <= 2 members over a pool of %d names x %d link kinds" % (len(NAMES), len(LINKS))]
+    max_paths = 400000
+    trusted = ["file-system model (contracts/C18.py VFS): POSIX symbolic-link resolution; os.path.realpath resolves through the "
+               "links that exist; tarfile.extractall(dest) creates the members in order through whatever links exist at that "
+               "moment, a symlink member points to join(dirname(member), linkname), a hardlink member to join(dest, linkname) "
+               "-- compared with the real tarfile on disk by the bounded native check",
+               "os.path.join/dirname/commonprefix/normpath (stdlib, executed natively on concrete paths)"]
+    assumptions = ["archives: every sequence of <= %d members over %d member specifications (BOUNDED hostile vocabulary: parent "
+                   "segments, absolute names, escaping symlink/hardlink targets, links to links, members placed through links "
+                   "of the archive itself), plus %d three-member link-chain archives; working directory empty, holding a "
+                   "staged link that leaves it, or holding a link to itself" % (MAXLEN, len(SPECS), len(CHAINS))]
 
     def setup(self, c):
-        n = 1 + c.choice('members', 2)
-        members = []
-        for i in range(n):
-            nm = NAMES[c.choice('name%d' % i, len(NAMES))]
-            lk = LINKS[c.choice('link%d' % i, len(LINKS))]
-            members.append(Member(nm, lk))
-        c.ghost['created'] = []
-        c.ghost['links'] = []
+        pre_name = c.one_of('working-directory', sorted(PRESTATES))
+        members = archives(c)
         ref = Obj('dataref', method='extract', stringRepresentation='data/archive.tgz:extract',
                   resolve=Extern('DataReference.resolve', lambda c, g: '/work/inst/data/archive.tgz'))
         loc = Obj('workdir', path=DEST)
-        return State(args=[ref, loc, 'graph'], members=members)
+        return State(args=[ref, loc, 'graph'], members=members, pre=pre_name)
+
+    def _vfs(self, c, st):
+        v = c.ghost.get('vfs')
+        if v is None:
+            v = c.ghost['vfs'] = VFS(PRESTATES[st.pre])
+        return v
 
     def externs(self, c, st):
+        vfs = self._vfs(c, st)
+
         def tar_open(c, archive):
             def extractall(c, dest, **kw):
-                for m in st.members:
-                    p = os.path.join(dest, m.name)
-                    c.ghost['created'].append(p)
-                    if m.issym():
-                        c.ghost['links'].append(os.path.join(os.path.dirname(p), m.linkname))
-                    elif m.islnk():
-                        c.ghost['links'].append(os.path.join(dest, m.linkname))
+                c.ghost['extracted'] = True
+                vfs.extractall(dest, st.members)
             t = Obj('tar', getmembers=Extern('TarFile.getmembers', lambda c: list(st.members)),
                     extractall=Extern('TarFile.extractall', extractall), close=Extern('TarFile.close', lambda c: None))
             t.__enter__ = Extern('tar.__enter__', lambda c: t)
@@ -95,20 +229,16 @@ class ExtractArchive(Target):
             return t
         return {'tarfile.open': Extern('tarfile.open', tar_open),
                 'os.path.exists': Extern('os.path.exists', lambda c, p: True),
-                'os.path.realpath': Extern('os.path.realpath', lambda c, p: os.path.normpath(p) if os.path.isabs(p) else os.path.normpath(os.path.join('/cwd', p)))}
+                'os.path.realpath': Extern('os.path.realpath', lambda c, p: vfs.realpath(p if os.path.isabs(p) else os.path.join('/cwd', p)))}
 
     def ensures(self, c, st, out):
-        g = c.ghost
-        escapes = [p for p in g['created'] + g['links'] if not inside(DEST, p)]
-        hostile = any(not inside(DEST, os.path.join(DEST, m.name)) for m in st.members) or \
-            any((m.issym() and not inside(DEST, os.path.join(os.path.dirname(os.path.join(DEST, m.name)), m.linkname))) or
-                (m.islnk() and not inside(DEST, os.path.join(DEST, m.linkname))) for m in st.members)
+        vfs = self._vfs(c, st)
+        escapes = [p for p in vfs.created if not inside(DEST, p)] + \
+                  [loc for (loc, kind, tgt) in vfs.linked if not inside(DEST, tgt)]
         cl = [('nothing-is-created-outside-the-working-directory', not escapes)]
         if out.kind == 'raise':
             cl.append(('rejected-with-the-staging-error', out.raised(errors.DataReferenceCouldNotStageError)))
-            cl.append(('benign-archives-are-not-rejected', hostile))
-        else:
-            cl.append(('hostile-archives-are-rejected', not hostile))
+            cl.append(('plainly-benign-archives-are-not-rejected', not plainly_benign(PRESTATES[st.pre], st.members)))
         return cl
 
 
@@ -203,33 +333,55 @@ class ManifestValidate(Target):
 
 
 class HostileArchivesNative:
-    """BOUNDED stand-in with the REAL tarfile/shutil on a scratch directory (outside /repo and /verif): hostile archives are
-    built on disk, StageReference is run natively, the directory tree outside the working directory must stay unchanged"""
+    """BOUNDED stand-in with the REAL tarfile on a scratch directory (outside /repo and /verif): archives over the same
+    vocabulary are built on disk (absolute names are redirected into the scratch directory), the working directory is
+    prepared like the model's, StageReference is run natively; everything outside the working directory must stay
+    unchanged and every link inside must resolve inside.  For accepted archives the resulting tree is also compared with
+    what the VFS model predicts (a mismatch is a defect of the trusted model: checker error, not a violation)."""
     name = 'hostile-archives[bounded,native]'
+
+    def cases(self, tier):
+        out = [[sp] for sp in SPECS] + [[a, b] for a in SPECS for b in SPECS] + [list(ch) for ch in CHAINS]
+        return out
 
     def run(self, tier='quick', seed=0):
         import io, shutil, tempfile
         import experiment.model.data as data_mod
         root = tempfile.mkdtemp(prefix='pyvc-c18-')
-        bad, cases = [], 0
+        bad, mismatches, cases, accepted = [], [], 0, 0
         try:
-            for nm in NAMES:
-                for lk in LINKS:
+            for pre_name in sorted(PRESTATES):
+                for specs in self.cases(tier):
                     cases += 1
                     case = os.path.join(root, 'case%d' % cases)
                     dest = os.path.join(case, 'stages', 'stage0', 'comp')
                     os.makedirs(dest)
                     os.makedirs(os.path.join(case, 'stages', 'stage0', 'comp2'))
+                    os.makedirs(os.path.join(case, 'data', 'shared'))
+                    os.makedirs(os.path.join(case, 'abs'))
+                    fix = lambda p: p.replace('/etc/passwd', os.path.join(case, 'abs', 'passwd'))
+                    pre = {}
+                    for path, (kind, tgt) in PRESTATES[pre_name].items():
+                        real = path.replace(DEST, dest)
+                        tgt = tgt.replace('/work/inst', case)
+                        os.symlink(tgt, real)
+                        pre[real] = ('sym', tgt)
+                    members = [Member(fix(n), k, fix(l)) for (n, k, l) in specs]
                     arc = os.path.join(case, 'a.tar')
                     with tarfile.open(arc, 'w') as t:
-                        ti = tarfile.TarInfo(nm)
-                        if lk:
-                            ti.type = tarfile.SYMTYPE if lk[0] == 'sym' else tarfile.LNKTYPE
-                            ti.linkname = lk[1]
-                            t.addfile(ti)
-                        else:
-                            ti.size = 3
-                            t.addfile(ti, io.BytesIO(b'abc'))
+                        for m in members:
+                            ti = tarfile.TarInfo(m.name)
+                            if m.issym() or m.islnk():
+                                ti.type = tarfile.SYMTYPE if m.issym() else tarfile.LNKTYPE
+                                ti.linkname = m.linkname
+                                t.addfile(ti)
+                            elif m.isdir():
+                                ti.type = tarfile.DIRTYPE
+                                ti.mode = 0o755
+                                t.addfile(ti)
+                            else:
+                                ti.size = 3
+                                t.addfile(ti, io.BytesIO(b'abc'))
                     before = self.snapshot(case, dest)
                     ref = Obj('dataref', method='extract', stringRepresentation='a.tar:extract', resolve=lambda g, a=arc: a)
                     try:
@@ -241,14 +393,34 @@ class HostileArchivesNative:
                         verdict = 'other:%s' % type(err).__name__
                     after = self.snapshot(case, dest)
                     links_ok = all(inside(dest, os.path.realpath(os.path.join(r, f))) or not os.path.islink(os.path.join(r, f))
+                                   or os.path.join(r, f) in pre
                                    for r, ds, fs in os.walk(dest) for f in fs + ds)
-                    if before != after or not links_ok:      # (a malformed archive, e.g. a dangling hard link, may raise tarfile's own error)
-                        bad.append({"what": "member %r link %r: %s; outside changed: %s; links inside: %s" % (
-                            nm, lk, verdict, before != after, links_ok), "replay": self._replay(nm, lk, verdict)})
+                    if before != after or not links_ok:
+                        bad.append({"what": "working directory %s, members %r: %s; outside changed: %s; links inside: %s" % (
+                            pre_name, specs, verdict, before != after, links_ok), "replay": self._replay(pre_name, specs, verdict)})
+                    elif verdict == 'extracted':
+                        accepted += 1
+                        vfs = VFS(pre)
+                        try:
+                            vfs.extractall(dest, members)
+                            predicted = sorted(set(p for p in vfs.created if vfs.e.get(p) != 'dir'))
+                        except OSError as err:
+                            predicted = 'model raises %s' % err
+                        real = sorted(os.path.join(r, f) for r, ds, fs in os.walk(dest) for f in fs + [d for d in ds if os.path.islink(os.path.join(r, d))]
+                                      if os.path.join(r, f) not in pre)
+                        if predicted != real:
+                            mismatches.append("working directory %s, members %r: model %r, tarfile %r" % (pre_name, specs, predicted, real))
+                    shutil.rmtree(case, ignore_errors=True)
         finally:
             shutil.rmtree(root, ignore_errors=True)
-        return {"name": self.name, "bounded": True, "bound": "%d member names x %d link kinds" % (len(NAMES), len(LINKS)),
-                "cases": cases, "violations": bad[:3], "summary": "%d archives, %d escapes" % (cases, len(bad))}
+        if mismatches:
+            raise RuntimeError("the VFS model of tarfile disagrees with the real tarfile on %d archives, e.g. %s" % (
+                len(mismatches), mismatches[:2]))
+        return {"name": self.name, "bounded": True,
+                "bound": "%d archives (every 1- and 2-member sequence over %d specifications + %d chains) x %d working-directory states" % (
+                    cases // len(PRESTATES), len(SPECS), len(CHAINS), len(PRESTATES)),
+                "cases": cases, "accepted_and_compared_with_the_model": accepted, "violations": bad[:3],
+                "summary": "%d archives, %d escapes, %d accepted archives agree with the file-system model" % (cases, len(bad), accepted)}
 
     @staticmethod
     def snapshot(case, dest):
@@ -263,12 +435,15 @@ class HostileArchivesNative:
                 out.append((p, os.path.islink(p), os.path.getsize(p) if os.path.isfile(p) else -1))
         return sorted(out)
 
-    def _replay(self, nm, lk, verdict):
+    def _replay(self, pre_name, specs, verdict):
         import json
-        p = os.path.join(os.path.dirname(os.path.dirname(os.path.abspath(__file__))), 'replays', 'C18')
+        base = os.environ.get('PYVC_OUT') or os.path.dirname(os.path.dirname(os.path.abspath(__file__)))
+        p = os.path.join(base, 'replays', 'C18')
         os.makedirs(p, exist_ok=True)
         f = os.path.join(p, 'hostile_archive.json')
-        json.dump({"property": "C18", "check": self.name, "member": nm, "link": lk, "verdict": verdict}, open(f, 'w'), indent=1)
+        json.dump({"property": "C18", "check": self.name, "working_directory": pre_name, "members": specs, "verdict": verdict,
+                   "how": "build a tar with these members (name, kind, link target) in a scratch working directory prepared as "
+                          "named, call experiment.model.data.StageReference on an :extract reference to it"}, open(f, 'w'), indent=1)
         return f
 
 
